@@ -652,7 +652,7 @@ def c14(ctx):
     events = harness(ctx, ["exec", "keyrt"], cases)
     rejects = judge(ctx, "Trace_C14", events)
     events, rejects = with_key_model(ctx, "C14", events, rejects)
-    short = lambda e: e["curve"] != "ed" and e["stage"] == "done" and (len(e["x"]) < {"p256": 32, "p384": 48, "p521": 66}[e["curve"]] or len(e["y"]) < {"p256": 32, "p384": 48, "p521": 66}[e["curve"]])
+    short = lambda e: "acts" not in e and e["curve"] != "ed" and e["stage"] == "done" and (len(e["x"]) < {"p256": 32, "p384": 48, "p521": 66}[e["curve"]] or len(e["y"]) < {"p256": 32, "p384": 48, "p521": 66}[e["curve"]])
     ctx.notes["keys_with_short_coordinate"] = sum(1 for e in events if short(e))
     return report(ctx, events, rejects,
                   nontrivial=lambda e: "acts" in e or e["stage"] == "done",
